@@ -76,10 +76,26 @@ def check(P: Project, R: Report) -> None:
             R.ob("R1", f"{cname} has error and no result member", "error" in mi.fields and "result" not in mi.fields, where, "")
             hook = mi.methods.get("model_post_init")
             ok = False
+            why_hook = "no model_post_init hook"
             if hook is not None:
-                txt = ast.unparse(hook.node)
-                ok = bool(re.search(r"isinstance\(self\.error(\['code'\]|\.get\('code'\)), int\)", txt)) and bool(re.search(r"isinstance\(self\.error(\['message'\]|\.get\('message'\)), str\)", txt)) and txt.count("raise ValueError") >= 2
-            R.ob("R1", f"{cname} rejects a non-int code / non-str message in model_post_init", ok, where, "")
+                # every way out of the hook that is not a raise has established, on the error object, an int code and a str
+                # message (or that there is no error object to look at)
+                me_ = hook.node.args.args[0].arg if hook.node.args.args else "self"
+                han, hout = run_paths(hook.node)
+                exits = [st for st, _n in hout.ret] + list(hout.normal)
+                bad_ = []
+                for st in exits:
+                    lits_ = set(st.lits)
+                    if f"not {me_}.error" in lits_ or f"{me_}.error is None" in lits_:
+                        continue
+                    has_code = any(f"isinstance({me_}.error{a_}, int)" in lits_ for a_ in ("['code']", ".get('code')"))
+                    has_msg = any(f"isinstance({me_}.error{a_}, str)" in lits_ for a_ in ("['message']", ".get('message')"))
+                    if not (has_code and has_msg):
+                        bad_.append(sorted(l_[:50] for l_ in lits_)[:6])
+                raising = {t_.split(".")[-1] for _s, t_, _n in hout.exc}
+                ok = bool(exits) and not bad_ and "ValueError" in raising
+                why_hook = f"a path leaves the hook normally without both type tests: {bad_[0]}" if bad_ else f"raising exits: {sorted(raising)}"
+            R.ob("R1", f"{cname} rejects a non-int code / non-str message in model_post_init", ok, where, why_hook)
 
     # ------------------------------------------------------------------ R2: dict displays
     n_dict = 0
@@ -89,6 +105,8 @@ def check(P: Project, R: Report) -> None:
         calls = [c for c in walk_local(f.node) if isinstance(c, ast.Call) and call_name(c).split(".")[-1] in set(ENVELOPE_CLASSES) | {"create_request", "create_notification", "create_response", "create_error_response"}]
         if not dicts and not calls:
             continue
+        if f.fq in getattr(getattr(P, "inliner", None), "read_elsewhere", ()):
+            continue  # a helper kept only for export: each of its uses in the package was read, with its arguments, at the call site
         R.fn(f.fq)
         sites: Dict[int, tuple] = {}
         results: Dict[int, list] = {}
@@ -128,28 +146,30 @@ def check(P: Project, R: Report) -> None:
             R.ob("R2", f"{tag}: key set is one of the four shapes", kind is not None, where, f"keys {sorted(keys)}" + (" plus ** or computed keys" if dyn else ""), sample=f"R2 {f.fq}:{d.lineno} → {kind}")
             if kind == "error":
                 ev = vals["error"]
+                evs_ = [ev]
                 if isinstance(ev, ast.Name):
-                    # the error object bound to a local first: read its single definition
+                    # the error object bound to a local first: read its definition(s) — one per arm when the arms differ
                     ds_ = [s_ for s_ in walk_local(f.node) if isinstance(s_, (ast.Assign, ast.AnnAssign)) and ast.unparse(s_.targets[0] if isinstance(s_, ast.Assign) else s_.target) == ev.id]
                     touched_ = [x for x in walk_local(f.node) if isinstance(x, ast.Subscript) and isinstance(x.ctx, ast.Store) and isinstance(x.value, ast.Name) and x.value.id == ev.id and not (isinstance(x.slice, ast.Constant) and x.slice.value == "data")]
-                    if len(ds_) == 1 and isinstance(ds_[0].value, ast.Dict) and not touched_:
-                        ev = ds_[0].value
-                if isinstance(ev, ast.Dict):
-                    ek = {k.value: v for k, v in zip(ev.keys, ev.values) if isinstance(k, ast.Constant)}
-                    code = try_fold(P, f.module, ek["code"]) if "code" in ek else None
-                    R.ob("R2", f"{tag}: error.code is an integer constant", isinstance(code, int) and not isinstance(code, bool), where, f"code `{ast.unparse(ek['code']) if 'code' in ek else None}` folds to {code!r}")
-                    m = ek.get("message")
-                    if isinstance(m, ast.Name):
-                        # the text bound to a local first (also what a helper's parameter becomes when it is read at its call site)
-                        mv_ = [v_ for v_ in local_values(f.node).get(m.id, []) if v_ is not None]
-                        if len(mv_) == 1:
-                            m = mv_[0]
-                    ok_m = isinstance(m, ast.JoinedStr) or (isinstance(m, ast.Constant) and isinstance(m.value, str)) or (isinstance(m, ast.Call) and call_name(m) == "str")
-                    R.ob("R2", f"{tag}: error.message is a string", ok_m, where, f"message `{ast.unparse(m) if m is not None else None}`")
-                    extra = set(ek) - {"code", "message", "data"}
-                    R.ob("R2", f"{tag}: error object has only code/message/data", not extra, where, f"{sorted(extra)}")
-                else:
-                    R.ob("R2", f"{tag}: error member is an explicit {{code, message}} display", False, where, f"error := `{ast.unparse(ev)[:60]}`")
+                    if ds_ and all(isinstance(s_.value, ast.Dict) for s_ in ds_) and not touched_:
+                        evs_ = [s_.value for s_ in ds_]
+                for ev in evs_:
+                  if isinstance(ev, ast.Dict):
+                      ek = {k.value: v for k, v in zip(ev.keys, ev.values) if isinstance(k, ast.Constant)}
+                      code = try_fold(P, f.module, ek["code"]) if "code" in ek else None
+                      R.ob("R2", f"{tag}: error.code is an integer constant", isinstance(code, int) and not isinstance(code, bool), where, f"code `{ast.unparse(ek['code']) if 'code' in ek else None}` folds to {code!r}")
+                      m = ek.get("message")
+                      if isinstance(m, ast.Name):
+                          # the text bound to a local first (also what a helper's parameter becomes when it is read at its call site)
+                          mv_ = [v_ for v_ in local_values(f.node).get(m.id, []) if v_ is not None]
+                          if len(mv_) == 1:
+                              m = mv_[0]
+                      ok_m = isinstance(m, ast.JoinedStr) or (isinstance(m, ast.Constant) and isinstance(m.value, str)) or (isinstance(m, ast.Call) and call_name(m) == "str")
+                      R.ob("R2", f"{tag}: error.message is a string", ok_m, where, f"message `{ast.unparse(m) if m is not None else None}`")
+                      extra = set(ek) - {"code", "message", "data"}
+                      R.ob("R2", f"{tag}: error object has only code/message/data", not extra, where, f"{sorted(extra)}")
+                  else:
+                      R.ob("R2", f"{tag}: error member is an explicit {{code, message}} display", False, where, f"error := `{ast.unparse(ev)[:60]}`")
             if kind in ("request", "response"):
                 for idt, lits, an in sites.get(id(d), []):
                     ok, why = id_not_nullable(P, f, idt, lits, an)
